@@ -9,10 +9,12 @@ import Driver.Priority
 import Driver.Classify
 import Driver.Scripts
 import Driver.Archive
+import Driver.Unit
 namespace Driver
 
 def dispatch (line : String) : String :=
   match line.trimAscii.toString.splitOn " " with
+  | "unit" :: rest => (handleUnit rest).getD "bad-op"
   | "aval" :: rest => (handleAval rest).getD "bad-op"
   | "aarch" :: rest => (handleAarch rest).getD "bad-op"
   | "scripts" :: rest => (handleScripts rest).getD "bad-op"
